@@ -1274,12 +1274,12 @@ class OperatorVectorSum(Operator):
     def _call(self, x, out=None):
         """Evaluate the residual at ``x`` and write to ``out`` if given."""
         if out is None:
-            out = self.operator(x)
+            # Not in-place since the result can be a view into `x`
+            return self.operator(x) + self.vector
         else:
             self.operator(x, out=out)
-
-        out += self.vector
-        return out
+            out += self.vector
+            return out
 
     def derivative(self, point):
         """Derivative the operator vector sum.
